@@ -2267,6 +2267,7 @@ func (p *parser) checkExpr(x ast.Expr) ast.Expr {
 	case *ast.FuncLit:
 	case *ast.CompositeLit:
 	case *ast.SliceLit:
+	case *ast.MatrixLit:
 	case *ast.ComprehensionExpr:
 	case *ast.SelectorExpr:
 	case *ast.IndexExpr:
